@@ -328,20 +328,57 @@ def _alias_context():
     ctx.register_function(outer, name='p')
     child = ctx.create_child_context()
     child.register_function(inner, name='p')
+
+    # one decorated payload registered under two conventions, in both orders: each registration carries the keyword
+    # spelling of its own context (nearest layer typed, outer layer **kwargs)
+    from yaql.language import contexts
+
+    @specs.parameter('item_filter', yaqltypes.PythonType(int, False, [lambda t: not isinstance(t, bool)]))
+    def near_f(item_filter=0):
+        return 'near'
+
+    @specs.parameter('item_filter', yaqltypes.PythonType(int, False, [lambda t: not isinstance(t, bool)]))
+    def near_h(item_filter=0):
+        return 'near'
+
+    def far(**kwargs):
+        return 'far'
+    chains = {}
+    for first, second, payload, fname in (('camel', 'python', near_f, 'f'), ('python', 'camel', near_h, 'h')):
+        for conv in (first, second):
+            c = conventions.CamelCaseConvention() if conv == 'camel' else conventions.PythonConvention()
+            outer_l = chains.get(conv)
+            if outer_l is None:
+                outer_l = chains[conv] = (contexts.Context(yaql.create_context(convention=c), convention=c),)
+                outer_l[0].register_function(far, name='f')
+                outer_l[0].register_function(far, name='h')
+                chains[conv] = (outer_l[0], outer_l[0].create_child_context())
+            chains[conv][1].register_function(payload, name=fname)
+    CONV_CTX['python'], CONV_CTX['camel'] = chains['python'][1], chains['camel'][1]
     return child, log
 
 
+CONV_CTX = {}
 if not H.P('driver'):
     ALIAS_CTX, ALIAS_LOG = _alias_context()
 
 
 def alias_kw(v: Union[int, str], which: int, bykw: bool, call_it: bool) -> bool:
     """
-    pre: 0 <= which < 3 and (isinstance(v, int) or len(v) <= 1)
+    pre: 0 <= which < 7 and (isinstance(v, int) or len(v) <= 1)
     post: _
     """
     from vf import yq
     del ALIAS_LOG[:]
+    if which >= 3:
+        # f: registered under camelCase first, python second; h: the other way round.  The keyword spelled in the
+        # context's own convention reaches the typed nearest overload, the other spelling only the outer **kwargs one
+        fname, conv = [('f', 'python'), ('f', 'camel'), ('h', 'python'), ('h', 'camel')][which - 3]
+        own = 'item_filter' if conv == 'python' else 'itemFilter'
+        other = 'itemFilter' if conv == 'python' else 'item_filter'
+        text = '%s(%s => $v)' % (fname, own if bykw else other)
+        exp = ('ok', 'near' if (bykw and isinstance(v, int) and not isinstance(v, bool)) else 'far')
+        return H.done(yq.outcome(text, ctx=CONV_CTX[conv], v=v) == exp)
     if which == 0:       # two overloads distinguished by the type of a parameter passed by its convention-translated keyword
         text = 's(someVal => $v)' if bykw else 's($v)'
         exp = ('ok', 'int' if (isinstance(v, int) and not isinstance(v, bool)) else 'obj')
@@ -356,6 +393,47 @@ def alias_kw(v: Union[int, str], which: int, bykw: bool, call_it: bool) -> bool:
         exp_log = []
     got = yq.outcome(text, ctx=ALIAS_CTX, v=v)
     return H.done(got == exp and ALIAS_LOG == exp_log)
+
+
+KTRI = [(None,), (True,), (False,)]
+
+
+def kind_registration(deco: int, fn: int, mt: int, recv: bool, how: int) -> bool:
+    """
+    pre: 0 <= deco < 3 and 0 <= fn < 3 and 0 <= mt < 3 and 0 <= how < 2
+    post: _
+    """
+    # the call kinds an overload answers to, as declared when it is registered: decorator (none / @method /
+    # @extension_method) and the explicit function= / method= arguments of register_function / get_function_definition
+    # (None: keep, True / False: set).  An outer layer answers to both kinds, so a filtered-out overload is visible as
+    # 'outer' rather than as an error.
+    from yaql.language import contexts, specs
+    from props import c05_bind as B
+    d, f, m = KTRI[deco][0], KTRI[fn][0], KTRI[mt][0]
+    recv, how = KTRI[1 if recv else 2][0], [(0,), (1,)][how][0]
+    with H.NoTracing():
+        def payload(x):
+            return 'near'
+
+        def outer(x):
+            return 'outer'
+        if d is True:
+            payload = specs.method(payload)
+        elif d is False:
+            payload = specs.extension_method(payload)
+        base = {None: (True, False), True: (False, True), False: (True, True)}[d]
+        is_f = base[0] if f is None else f
+        is_m = base[1] if m is None else m
+        far = contexts.Context(B.ROOT)
+        far.register_function(specs.extension_method(outer), name='f')
+        near = far.create_child_context()
+        if how == 0:
+            near.register_function(payload, name='f', function=f, method=m)
+        else:
+            near.register_function(specs.get_function_definition(payload, name='f', function=f, method=m))
+        got = near('f', B.ENG, receiver=1)() if recv else near('f', B.ENG)(1)
+        ok = got == ('near' if (is_m if recv else is_f) else 'outer')
+    return H.done(ok)
 
 
 PATTERNS = [[0, 0, 0], [0, 0, 1], [0, 1, 1], [0, 1, 2]]
@@ -411,6 +489,10 @@ def conditions(tier, seed):
                 'bounds': 'functions registered under the CamelCase convention with multi-word / trailing-underscore parameter '
                           'names, called positionally and by the convention-translated keyword; value int or str(len<=1); lazy '
                           'parameter by keyword; two layers'})
+    out.append({'name': 'kind_registration', 'func': 'kind_registration', 'timeout': t,
+                'bounds': 'one overload declared plain / @method / @extension_method and registered with function= and method= '
+                          'each None / True / False (symbolic), through register_function and get_function_definition, called '
+                          'with and without receiver over an outer layer that answers to both kinds'})
     for layers in PATTERNS:
         out.append({'name': 'layering[layers=%s]' % ''.join(map(str, layers)), 'func': 'layering', 'timeout': t,
                     'param': {'layers': layers},
@@ -469,6 +551,13 @@ def replay(cond, args):
         return {'reproduced': not ok, 'key': 'C05/keyword-alias-binding',
                 'what': 'call by convention-translated keyword differs from the positional call / evaluates a lazy argument '
                         'in the resolver: %r' % (a,)}
+    elif f == 'kind_registration':
+        ok = kind_registration(**a)
+        return {'reproduced': not ok, 'key': 'C05/kind-registration',
+                'what': 'an overload declared %s and registered with function=%r method=%r (%s) %s although its declared kinds say '
+                        'otherwise' % (['plain', '@method', '@extension_method'][a['deco']], KTRI[a['fn']][0], KTRI[a['mt']][0],
+                                       'register_function' if a['how'] == 0 else 'get_function_definition',
+                                       'is not the one chosen / is chosen for a call %s receiver' % ('with' if a['recv'] else 'without'))}
     elif f == 'layering':
         ok = layering(**a)
         return {'reproduced': not ok, 'key': 'C05/layering', 'what': 'kind filter / layering differs from the rules for %r layers %r' % (a, LAYERS)}
